@@ -51,7 +51,7 @@ def run(ctx: Ctx):
     if quick:
         seen, pick = set(), []
         for c in cases:
-            k1, k2, k3 = ("x", c["crystal"]), ("o", c["order"], c["use_wave_eq"]), ("p", c["prebuilt"], c["use_wave_eq"], c["orientation"] == 1)
+            k1, k2, k3 = ("x", c["crystal"]), ("o", c["order"], c["use_wave_eq"]), ("p", c.get("source", c["prebuilt"]), c["use_wave_eq"], c["orientation"] == 1)
             if c["g_max"] == 1 and (k1 not in seen or k2 not in seen or k3 not in seen):
                 seen.update([k1, k2, k3]); pick.append(c)
         cases = pick + [c for c in cases if c not in pick and c["g_max"] == 1][:4]
